@@ -1,0 +1,23 @@
+//go:build verif
+
+// Client-facing ASSUMED frames of the index tree as used by embedded/store (only compiled with -tags verif): these
+// operations write only the tree's own state (nodes, caches, logs); BulkInsert copies the keys and values it is given.
+package tbtree
+
+//@ func (*TBtree).GetBetween
+//@   assigns internal
+
+//@ func (*TBtree).IncreaseTs
+//@   assigns internal
+
+//@ func (*TBtree).BulkInsert
+//@   assigns internal
+
+//@ func (*Snapshot).History
+//@   assigns internal
+
+//@ func (*Snapshot).Get
+//@   assigns internal
+
+//@ func (*Snapshot).GetWithPrefix
+//@   assigns internal
